@@ -13,6 +13,7 @@ import Bardolph.Props.C07
 import Bardolph.Props.C11
 import Bardolph.Props.C14
 import Bardolph.Props.C15
+import Bardolph.Props.C16
 import Bardolph.Props.C18
 import Bardolph.Props.C19
 import Bardolph.Props.C20
